@@ -5,12 +5,12 @@ import "golang.org/x/tools/go/ssa"
 // consOpts selects which conservation rules a property needs (each rule must
 // be a necessary condition of the property that includes it).
 type consOpts struct {
-	eat         bool // junk eater accumulates every byte
-	fetch       bool // fetcher accumulates every byte
-	returns     bool // every exit returns the whole buffer
-	fetchO      fetchOpts
-	decoderRaw  bool // decoder returns its whole input / prefix
-	exactCount  bool // L+6 bytes handed over and delivered
+	eat        bool // junk eater accumulates every byte
+	fetch      bool // fetcher accumulates every byte
+	returns    bool // every exit returns the whole buffer
+	fetchO     fetchOpts
+	decoderRaw bool // decoder returns its whole input / prefix
+	exactCount bool // L+6 bytes handed over and delivered
 }
 
 var consAll = consOpts{eat: true, fetch: true, returns: true, decoderRaw: true, exactCount: true}
